@@ -694,6 +694,10 @@ def check_C16(tier, seed):
                     # mostly to a different count, sometimes to the count it already has
                     cur[a] = cur[a] if rng.random() < 0.25 else (cur[a] % 5) + 1 if cur[a] < 6 else rng.choice([1, 2, cur[a] - 1])
                     ops.append({"op": "set_rounds", "g": a, "r": cur[a]})
+                elif op == "timer_stats":
+                    ops.append({"op": "timer_stats", "g": a, "var": rng.random() < 0.5})
+                elif op == "test_timer":
+                    ops.append({"op": "test_timer", "g": a})
                 elif op == "clone_from":
                     ops.append({"op": "clone_from", "g": a, "from": b})
                     cur[a] = cur[b]
